@@ -143,7 +143,9 @@ class Terminologies(dict):
         :param url: location of an odML XML file.
         """
         self.reload_cache = True
-        self.clear()
+        # A loader thread that is about to return its result must not find it gone.
+        with self._lock:
+            self.clear()
         self.load(url)
         self.reload_cache = False
 
